@@ -121,8 +121,7 @@ func TestC20Chain(t *testing.T) {
 		lists := allBehLists(alpha, 3)
 		nrand := 150
 		if thorough() {
-			lists = allBehLists(alpha, 4)
-			nrand = 3000
+			nrand = 1500 // (all lists of length 4 would be 2401 more per kind: the cases files are kept below ~25k cases)
 		}
 		for i := 0; i < nrand; i++ {
 			lists = append(lists, randList(alpha, 4, 6))
@@ -147,7 +146,7 @@ func TestC20Chain(t *testing.T) {
 	// ---- the exported recursion at every index
 	nAt := 120
 	if thorough() {
-		nAt = 1500
+		nAt = 500
 	}
 	for i := 0; i < nAt; i++ {
 		stream := i%2 == 1
